@@ -280,7 +280,7 @@ def run(ctx, report: Report) -> None:
                      f'raise TypeError')
 
     # ---- R7 ------------------------------------------------------------------------------------------------
-    r7 = report.rule('C08-R7', 'the state pseudo-classes never raise on trees with multi-valued (list) attributes and odd text', floor=293)
+    r7 = report.rule('C08-R7', 'the state pseudo-classes never raise on trees with multi-valued (list) attributes and odd text', floor=361)
     from ..core import Rule
     from .sem import (alternatives_table, children_table, closest_filter_table, descendants_table, dir_table, empty_table, lang_table,
                       lang_memo_table, nth_bounded_table, relations_table, root_table, select_walk_table)
@@ -308,7 +308,7 @@ def run(ctx, report: Report) -> None:
     no_tree_recursion_rule(ctx, r9)
 
     # ---- R10 -------------------------------------------------------------------------------------------------------------
-    r10 = report.rule('C08-R10', 'tuples that are ordered with < / > hold numbers only (no None, no text) in every position', floor=2)
+    r10 = report.rule('C08-R10', 'tuples that are ordered with < / > hold numbers only (no None, no text) in every position', floor=4)
     ordered_tuples_rule(ctx, r10, cg, reach)
 
 
